@@ -131,6 +131,15 @@ let dispatch = function
     (match snd (send_response st i) with
      | RespRaise -> put_int 0
      | RespSent t -> put_int 1; put_ostr t)
+  | "builtin" ->  (* has_builtin has_user -> user calls, each: after the built-in? given the params object unchanged? *)
+    let hb = next_bool () in let hu = next_bool () in
+    (* params is token 7; the built-in is any function of (method, params, state): here one that
+       records what it was given in the state *)
+    let (s', calls) = call_user_feature (fun _ p s -> p :: s) hb hu [] 7 [] in
+    let users = List.filter (function CUser _ -> true | _ -> false) calls in
+    put_int (List.length users);
+    put_bool (List.for_all (function CUser (_, p) -> p = 7 | CBuiltin (_, p) -> p = 7) calls);
+    put_bool ((not hb) || (match calls with CBuiltin _ :: _ -> s' = [7] | _ -> false))
   | c -> failwith ("unknown command " ^ c)
 (* the reflected tables of this run: work/C13/tables.txt (two lines: setreg ..., sethelpers ...),
    written by harness/c13.py before the driver is started *)
